@@ -3,10 +3,9 @@ use cbor_event::de::Deserializer;
 use cbor_event::se::Serializer;
 use cbor_event::Serialize;
 use crate::{BootstrapWitnesses, CBORReadLen, DeserializeError, DeserializeFailure, Key, Language, NativeScripts, PlutusList, PlutusScripts, Redeemers, TransactionWitnessSet, Vkeywitnesses};
-use crate::protocol_types::{CBORSpecial, CBORType, Deserialize, opt64, TransactionWitnessSetRaw};
+use crate::protocol_types::{CBORSpecial, CBORType, Deserialize, TransactionWitnessSetRaw};
 use crate::serialization::utils::{deserilized_with_orig_bytes, merge_option_plutus_list};
 use crate::traits::NoneOrEmpty;
-use crate::utils::opt64_non_empty;
 
 impl cbor_event::se::Serialize for TransactionWitnessSet {
     fn serialize<'a, W: Write + Sized>(&self, serializer: &'a mut Serializer<W>) -> cbor_event::Result<&'a mut Serializer<W>> {
@@ -214,12 +213,19 @@ pub(super) fn serialize<'se, W: Write>(
         },
         _ => 0,
     };
+    // a field is written when it is present and either its original bytes are kept or it is non-empty
+    fn field_count<T: NoneOrEmpty>(field: &Option<T>, raw: Option<&Vec<u8>>) -> u64 {
+        match field {
+            Some(f) => (raw.is_some() || !f.is_none_or_empty()) as u64,
+            None => 0,
+        }
+    }
     serializer.write_map(cbor_event::Len::Len(
-        opt64(&wit_set.vkeys)
-            + opt64_non_empty(&wit_set.native_scripts)
-            + opt64_non_empty(&wit_set.bootstraps)
-            + opt64_non_empty(&wit_set.plutus_data)
-            + opt64_non_empty(&wit_set.redeemers)
+        field_count(&wit_set.vkeys, raw_parts.and_then(|x| x.vkeys.as_ref()))
+            + field_count(&wit_set.native_scripts, raw_parts.and_then(|x| x.native_scripts.as_ref()))
+            + field_count(&wit_set.bootstraps, raw_parts.and_then(|x| x.bootstraps.as_ref()))
+            + field_count(&wit_set.plutus_data, raw_parts.and_then(|x| x.plutus_data.as_ref()))
+            + field_count(&wit_set.redeemers, raw_parts.and_then(|x| x.redeemers.as_ref()))
             + plutus_added_length,
     ))?;
     if let Some(field) = &wit_set.vkeys {
